@@ -617,3 +617,136 @@ Proof.
     destruct (14 <=? h / 16); [|discriminate].
     destruct (length (h :: t) <? 29)%nat; [discriminate|]. destruct ((29 <? length (h :: t))%nat && negb false); discriminate.
 Qed.
+
+(* ---------------- C11_embedded_verbatim ---------------- *)
+Lemma bytes_ok_skipn k (l : bytes) : bytes_ok l -> bytes_ok (skipn k l).
+Proof.
+  unfold bytes_ok. revert l; induction k as [|k IH]; intros l H; [exact H|].
+  destruct l as [|x t]; [constructor|]. cbn. apply IH. now inversion H.
+Qed.
+
+Theorem embedded_verbatim data a : bytes_ok data ->
+  known_trailing data = false -> known_padded_pointer data = false ->
+  known_noncanonical_byron data = false ->
+  embedded_decode data = Ok a -> to_bytes a = data.
+Proof.
+  intros Hok KT KP KB H. unfold embedded_decode in H.
+  destruct (from_bytes_internal true data) as [a'| | |] eqn:E; try discriminate.
+  2:{ injection H as <-. reflexivity. }
+  injection H as ->.
+  destruct data as [|h payload]; [discriminate|].
+  inversion Hok as [|? ? Hh Hok']; subst.
+  pose proof (rewrite_ok_all h Hh) as R. unfold rewrite_ok in R.
+  unfold from_bytes_internal in E. unfold known_trailing in KT.
+  unfold known_padded_pointer in KP. unfold known_noncanonical_byron in KB.
+  destruct (h / 16 <? 4) eqn:E4.
+  { (* base *)
+    destruct (length (h :: payload) <? 57)%nat eqn:L1; [discriminate|].
+    rewrite KT in E. cbn [andb] in E. injection E as <-.
+    apply Nat.ltb_ge in L1. apply Nat.ltb_ge in KT. cbn [length] in L1, KT.
+    cbn [to_bytes]. rewrite !read_cred_mk, !cred_kind_mk, !cred_bytes_mk, !skipn_S, skipn_O.
+    f_equal; [lia|]. rewrite firstn_firstn_skipn. apply firstn_all2. lia. }
+  destruct (h / 16 <? 6) eqn:E6.
+  { (* pointer *)
+    destruct (length (h :: payload) <? 32)%nat eqn:L1; [discriminate|].
+    apply Nat.ltb_ge in L1.
+    assert (L1b : (32 <=? length (h :: payload))%nat = true) by (apply Nat.leb_le; exact L1).
+    rewrite L1b in KT, KP.
+    assert (E46 : (4 <=? h / 16) = true) by lia. rewrite E46 in KP. cbn [andb] in KP.
+    rewrite skipn_S in *. set (d := skipn 28 payload) in *.
+    assert (Hd : bytes_ok d) by (apply bytes_ok_skipn; exact Hok').
+    destruct (decode_pointer d) as [[p off]|] eqn:Ed; [|discriminate].
+    cbn [andb] in KT. apply Nat.ltb_ge in KT.
+    pose proof (decode_pointer_bound _ _ _ Ed) as B.
+    assert (Ld : length d = (length payload - 28)%nat) by (unfold d; apply skipn_length).
+    cbn [length] in KT, L1.
+    assert (Hoff : off = length d) by lia.
+    rewrite andb_false_r in E. injection E as <-.
+    unfold decode_pointer in Ed.
+    destruct (varnat_decode d) as [[s k1]|] eqn:V1; [|discriminate].
+    destruct (varnat_decode (skipn k1 d)) as [[t k2]|] eqn:V2; [|discriminate].
+    destruct (varnat_decode (skipn (k1 + k2) d)) as [[c k3]|] eqn:V3; [|discriminate].
+    injection Ed as <- Eoff.
+    apply orb_false_iff in KP. destruct KP as [P1 KP].
+    apply orb_false_iff in KP. destruct KP as [P2 P3].
+    pose proof (varnat_decode_canonical _ _ _ Hd P1 V1) as C1.
+    pose proof (varnat_decode_canonical _ _ _ (bytes_ok_skipn k1 _ Hd) P2 V2) as C2.
+    pose proof (varnat_decode_canonical _ _ _ (bytes_ok_skipn (k1 + k2) _ Hd) P3 V3) as C3.
+    cbn [to_bytes p_slot p_tx p_cert]. rewrite read_cred_mk, cred_kind_mk, cred_bytes_mk, skipn_S, skipn_O.
+    f_equal; [lia|]. rewrite C1, C2, C3.
+    rewrite (skipn_add k1 k2 d).
+    rewrite (firstn_firstn_skipn k2 k3 (skipn k1 d)), (firstn_firstn_skipn k1 (k2 + k3) d).
+    replace (k1 + (k2 + k3))%nat with (length d) by lia. rewrite firstn_all.
+    unfold d. apply firstn_skipn. }
+  destruct (h / 16 <? 8) eqn:E8.
+  { (* enterprise *)
+    cbn [orb] in KT.
+    destruct (length (h :: payload) <? 29)%nat eqn:L1; [discriminate|].
+    rewrite KT in E. cbn [andb] in E. injection E as <-.
+    apply Nat.ltb_ge in L1. apply Nat.ltb_ge in KT. cbn [length] in L1, KT.
+    cbn [to_bytes]. rewrite !read_cred_mk, !cred_kind_mk, !cred_bytes_mk, !skipn_S, skipn_O.
+    f_equal; [lia|]. apply firstn_all2. lia. }
+  destruct (h / 16 =? 8) eqn:E88.
+  { (* byron *)
+    destruct (byron_from_bytes crc32 (h :: payload)) as [b| | |]; try discriminate.
+    injection E as <-. cbn [to_bytes]. apply negb_false_iff in KB. now apply bytes_eqb_eq. }
+  destruct (14 <=? h / 16) eqn:E14; [|discriminate].
+  { (* reward *)
+    cbn [orb] in KT.
+    destruct (length (h :: payload) <? 29)%nat eqn:L1; [discriminate|].
+    rewrite KT in E. cbn [andb] in E. injection E as <-.
+    apply Nat.ltb_ge in L1. apply Nat.ltb_ge in KT. cbn [length] in L1, KT.
+    cbn [to_bytes]. rewrite !read_cred_mk, !cred_kind_mk, !cred_bytes_mk, !skipn_S, skipn_O.
+    f_equal; [lia|]. apply firstn_all2. lia. }
+Qed.
+
+(* bytes that the lenient parser refuses are kept verbatim as Malformed *)
+Theorem embedded_malformed_verbatim data : from_bytes_internal true data = Err ->
+  embedded_decode data = Ok (Malformed data) /\ to_bytes (Malformed data) = data.
+Proof. intros H. unfold embedded_decode. rewrite H. split; reflexivity. Qed.
+
+(* ---------------- the full-strength statement is false: witnesses of the known classes ------ *)
+Definition w_trailing : bytes := 97 :: repeat 7 28 ++ [255].
+Definition w_padded : bytes := 65 :: repeat 9 28 ++ [128; 1; 2; 3].
+Definition w_byron_inner : bytes := byron_inner (mkByron (repeat 3 28) None None ATPubKey).
+(* tag 24 written with a two-byte argument (d9 0018) instead of d8 18 *)
+Definition w_byron : bytes :=
+  encode_head 4 2 ++ encode_head_w 6 24 2 ++ enc_bytes w_byron_inner ++ enc_uint (crc32 w_byron_inner).
+Definition w_huge : bytes := [130; 216; 24; 91; 255; 255; 255; 255; 255; 255; 255; 255; 0].
+
+Definition verbatim_fails (data : bytes) : Prop :=
+  bytes_ok data /\ exists a, embedded_decode data = Ok a /\ to_bytes a <> data.
+
+Theorem embedded_verbatim_refuted_trailing : verbatim_fails w_trailing /\ known_trailing w_trailing = true.
+Proof.
+  split; [|vm_compute; reflexivity]. split; [unfold w_trailing; repeat constructor|].
+  eexists. split; [vm_compute; reflexivity|]. vm_compute. discriminate.
+Qed.
+
+Theorem embedded_verbatim_refuted_padded : verbatim_fails w_padded /\ known_padded_pointer w_padded = true.
+Proof.
+  split; [|vm_compute; reflexivity]. split; [unfold w_padded; repeat constructor|].
+  eexists. split; [vm_compute; reflexivity|]. vm_compute. discriminate.
+Qed.
+
+Lemma w_byron_value : w_byron =
+  [130; 217; 0; 24; 88; 33; 131; 88; 28; 3; 3; 3; 3; 3; 3; 3; 3; 3; 3; 3; 3; 3; 3; 3; 3; 3; 3; 3; 3; 3; 3; 3; 3; 3; 3; 3; 3;
+   160; 0; 26; 59; 40; 209; 119].
+Proof. vm_compute. reflexivity. Qed.
+
+Theorem embedded_verbatim_refuted_byron : verbatim_fails w_byron /\ known_noncanonical_byron w_byron = true.
+Proof.
+  split; [|vm_compute; reflexivity]. split; [rewrite w_byron_value; repeat constructor|].
+  eexists. split; [vm_compute; reflexivity|]. vm_compute. discriminate.
+Qed.
+
+Theorem embedded_total_refuted : embedded_decode w_huge = Panic /\ known_huge_length w_huge = true.
+Proof. split; vm_compute; reflexivity. Qed.
+
+(* the premises of embedded_verbatim are satisfiable on a decoded (non-malformed) address *)
+Example embedded_verbatim_nonvacuous :
+  let data := 65 :: repeat 9 28 ++ [129; 0; 2; 3] in
+  bytes_ok data /\ known_trailing data = false /\ known_padded_pointer data = false /\
+  known_noncanonical_byron data = false /\
+  embedded_decode data = Ok (Ptr 1 (KeyHash (repeat 9 28)) (mkPtr 128 2 3)).
+Proof. cbv zeta. split; [repeat constructor|]. repeat split; vm_compute; reflexivity. Qed.
